@@ -80,6 +80,7 @@ def strategy(tier):
         return st.fixed_dictionaries({
             "spec": st.just(spec), "ops": st.lists(ops.single_op(spec), min_size=0, max_size=n), "populate": populate,
             "skip": st.lists(st.integers(0, 40), max_size=4), "session": st.sampled_from(["same", "new"]),
+            "dyn": st.lists(st.tuples(st.integers(0, 5), st.sampled_from(["extra1", "extra2", "zz"]), trees.tree_strategy("xml", 4, top_map=False)), max_size=3),
             "opts": st.fixed_dictionaries({"pretty": st.booleans(), "root_key": st.sampled_from([None, "CONFIG", "root"]), "root_tag": st.sampled_from(["config", "cfg"])}),
         })
     return worlds.schema_spec(tier).flatmap(hist)
@@ -96,7 +97,7 @@ def _is_plain_value(v):
             except UnicodeEncodeError:
                 return False
         return True
-    if isinstance(v, (list, tuple)) and not hasattr(v, "_fields"):
+    if isinstance(v, list):
         return all(_is_plain_value(x) for x in v)
     if isinstance(v, dict):
         return all(isinstance(k, str) and _is_plain_value(k) and _is_plain_value(x) for k, x in v.items())
@@ -129,7 +130,8 @@ def _sanitize(world, cfg, node=None):
         elif kind == "list":
             item = child.get("item")
             if item is None or item["kind"] == "any":
-                bad = not _is_plain_value(value)
+                # an untyped list keeps a tuple in memory and saves it as a list; anything nested must be plain
+                bad = not _is_plain_value(list(value) if isinstance(value, tuple) else value)
             elif item["kind"] == "secure":
                 bad = value is not None and not all(isinstance(x, str) and x and _is_plain_value(x) for x in value)
         elif kind == "dict":
@@ -342,6 +344,14 @@ def run_case(case, R):
                     break
                 except Exception:
                     continue
+        dyn = [p for p, n in [((), spec)] + ops.spec_containers(spec) if n.get("dynamic")]
+        for idx, key, value in case.get("dyn", []):
+            if dyn:
+                try:
+                    setattr(worlds.get_path(cfg, dyn[idx % len(dyn)]), key, value)
+                    R.label("dynamic-field")
+                except Exception:
+                    pass
         _sanitize(world, cfg)
         errors = cfg.validate(collect_errors=True)
         if errors:
@@ -416,13 +426,10 @@ def _filter_valid(nd, value, ctx):
         return [x for x in value if refmodel.ref(nd["item"], x, ctx)[0] == A]
     if kind == "dict" and (nd.get("keyf") or nd.get("valuef")) and isinstance(value, dict):
         kf, vf = nd.get("keyf") or {"kind": "any"}, nd.get("valuef") or {"kind": "any"}
-        out = {k: v for k, v in value.items() if refmodel.ref(kf, k, ctx)[0] == A and refmodel.ref(vf, v, ctx)[0] == A}
-        if not out:  # pair any acceptable key with any acceptable value
-            ks = [k for k in value if refmodel.ref(kf, k, ctx)[0] == A]
-            vs = [v for v in value.values() if refmodel.ref(vf, v, ctx)[0] == A]
-            if ks and vs:
-                out = {ks[0]: vs[0]}
-        return out
+        # pair every acceptable key with an acceptable value (round robin), so that large valid dicts are common
+        ks = [k for k in value if refmodel.ref(kf, k, ctx)[0] == A]
+        vs = [v for v in value.values() if refmodel.ref(vf, v, ctx)[0] == A]
+        return {k: vs[i % len(vs)] for i, k in enumerate(ks)} if vs else {}
     if kind == "schemalist" and isinstance(value, list):
         out = []
         for tree in value:
